@@ -9,9 +9,9 @@ POP_ENGINES = ("EADeme", "DEDeme", "SHADEDeme")
 
 
 def h_step(P, kinds, shape, props, L=2, hibernation=False, generations=2, mech="stub", warm=1, monotone=True, maximize=False,
-           deme_filters="limit1", objective="smooth", lsc="sym", gsc="sym"):
+           deme_filters="limit1", objective="smooth", lsc="sym", gsc="sym", seed=1, pop=4):
     w = build(P, kinds, shape, L=L, hibernation=hibernation, generations=generations, mech=mech, warm=warm, maximize=maximize,
-              deme_filters=deme_filters, objective=objective)
+              deme_filters=deme_filters, objective=objective, seed=seed, pop=pop)
     tree = w.tree
     props = set(props)
     if "C09" in props:
@@ -378,6 +378,13 @@ def tree_cases(prop, tier, hibernation_values=(False,), extra=None):
                     L = max(2, max(len(s) for s in shape)) if tier == "quick" else 3
                     add(f"step.{'-'.join(kinds)}.shape{shape}.g{g}.L{L}.hib{hib}", kinds=list(kinds), shape=shape, generations=g, L=L,
                         hibernation=hib)
+    if tier != "quick":
+        # other concrete instances of the numbers: another seed, a larger population, three dimensions are not varied in quick
+        for kinds, shape in ((("ea", "cma"), [[0, 0]]), (("de", "ea"), [[0, 0]]), (("shade", "cma"), [[0]]), (("ea", "ea", "cma"), [[0, 0], [0]]),
+                             (("de", "ea", "local"), [[0], [0]])):
+            for seed, pop in ((2, 4), (3, 6)):
+                add(f"step.{'-'.join(kinds)}.shape{shape}.seed{seed}.pop{pop}", kinds=list(kinds), shape=shape, generations=2, L=2,
+                    hibernation=hibernation_values[-1], seed=seed, pop=pop)
     # the shipped mechanisms end to end (their own generators, real filters)
     for mech in ("simple", "nbc"):
         add(f"step.ea-cma.{mech}", kinds=["ea", "cma"], shape=[[0]], generations=2, L=2, hibernation=hibernation_values[-1], mech=mech)
